@@ -547,13 +547,12 @@ Section tree_proofs.
       1 <= D -> exists tr c, steps init tr c /\ final c /\
         q c = 0 /\ nfin c = N /\ nfail c = 0 /\ nabort c = 0 /\ xc c = false.
     Proof.
-      intros HD. destruct N as [|n] eqn:EN.
+      intros HD. destruct (Nat.eq_dec N 0) as [E0|Hne].
       - destruct (finish_from init HD) as (tr & c & H1 & H2 & H3 & H4 & H5 & H6 & H7).
-        + subst. apply reachable_init.
-        + unfold settled. simpl. rewrite EN. auto.
-        + exists tr, c. rewrite EN in *. simpl in *. repeat split; assumption.
-      - rewrite <- EN in *.
-        destruct (finish_from (seq_state 0 N) HD) as (tr & c & H1 & H2 & H3 & H4 & H5 & H6 & H7).
+        + apply reachable_init.
+        + unfold settled. simpl. auto.
+        + exists tr, c. simpl in *. repeat split; try assumption; try lia. Show.
+      - destruct (finish_from (seq_state 0 N) HD) as (tr & c & H1 & H2 & H3 & H4 & H5 & H6 & H7).
         + apply seq_reach; [exact HD|lia|lia].
         + unfold settled. simpl. auto.
         + exists tr, c. simpl in *. repeat split; assumption.
